@@ -228,9 +228,15 @@ func ParsePPSNALUnit(data []byte, spsMap map[uint32]*SPS) (*PPS, error) {
 		pps.UniformSpacingFlag = r.ReadFlag()
 		if !pps.UniformSpacingFlag {
 			for i := uint(0); i < pps.NumTileColumnsMinus1; i++ {
+				if r.AccError() != nil {
+					break // no more data: stop instead of filling up to the coded count
+				}
 				pps.ColumnWidthMinus1 = append(pps.ColumnWidthMinus1, r.ReadExpGolomb())
 			}
 			for i := uint(0); i < pps.NumTileRowsMinus1; i++ {
+				if r.AccError() != nil {
+					break // no more data: stop instead of filling up to the coded count
+				}
 				pps.RowHeightMinus1 = append(pps.RowHeightMinus1, r.ReadExpGolomb())
 			}
 		}
@@ -334,6 +340,9 @@ func parseRangeExtension(r *bits.EBSPReader, transformSkipEnabled bool) (*RangeE
 		ext.DiffCuChromaQpOffsetDepth = r.ReadExpGolomb()
 		ext.ChromaQpOffsetListLenMinus1 = r.ReadExpGolomb()
 		for i := uint(0); i <= ext.ChromaQpOffsetListLenMinus1; i++ {
+			if r.AccError() != nil {
+				break // no more data: stop instead of filling up to the coded count
+			}
 			// values shall be in the range of −12 to +12, inclusive
 			ext.CbQpOffsetList = append(ext.CbQpOffsetList, int8(r.ReadSignedGolomb()))
 			ext.CrQpOffsetList = append(ext.CrQpOffsetList, int8(r.ReadSignedGolomb()))
@@ -357,8 +366,11 @@ func parseMultilayerExtension(r *bits.EBSPReader) (*MultilayerExtension, error) 
 		ext.ScalingListRefLayerId = uint8(r.Read(6))
 	}
 	ext.NumRefLocOffsets = r.ReadExpGolomb()
-	ext.RefLocOffsets = make(map[uint8]RefLocOffset, int(ext.NumRefLocOffsets))
+	ext.RefLocOffsets = make(map[uint8]RefLocOffset)
 	for i := uint(0); i < ext.NumRefLocOffsets; i++ {
+		if r.AccError() != nil {
+			break // no more data: stop instead of filling up to the coded count
+		}
 		ext.RefLocOffsetLayerIds = append(ext.RefLocOffsetLayerIds, uint8(r.Read(6)))
 
 		off := RefLocOffset{}
@@ -526,12 +538,18 @@ func parseSccExtension(r *bits.EBSPReader) (*SccExtension, error) {
 			ext.PalettePredictorInitializer = make([][]uint, numComps)
 			// Fill luma
 			for i := uint(0); i < ext.NumPalettePredictorInitializers; i++ {
+				if r.AccError() != nil {
+					break // no more data: stop instead of filling up to the coded count
+				}
 				ext.PalettePredictorInitializer[0] =
 					append(ext.PalettePredictorInitializer[0], r.Read(int(ext.LumaBitDepthEntryMinus8+8)))
 			}
 			// Fill chroma if any
 			for comp := 1; comp < numComps; comp++ {
 				for i := uint(0); i < ext.NumPalettePredictorInitializers; i++ {
+					if r.AccError() != nil {
+						break // no more data: stop instead of filling up to the coded count
+					}
 					ext.PalettePredictorInitializer[comp] =
 						append(ext.PalettePredictorInitializer[comp], r.Read(int(ext.ChromaBitDepthEntryMinus8+8)))
 				}
